@@ -48,18 +48,18 @@ func (t *T) Violatef(key, format string, a ...any) {
 func (t *T) ViolateD(key string, detail any, format string, a ...any) {
 	t.violations = append(t.violations, Violation{Key: key, Msg: fmt.Sprintf(format, a...), Detail: detail})
 }
-func (t *T) Failed() bool           { return len(t.violations) > 0 }
-func (t *T) Cover(name string)      { t.CoverN(name, 1) }
+func (t *T) Failed() bool      { return len(t.violations) > 0 }
+func (t *T) Cover(name string) { t.CoverN(name, 1) }
 func (t *T) CoverN(name string, n int) {
 	if t.cover == nil {
 		t.cover = map[string]int{}
 	}
 	t.cover[name] += n
 }
-func (t *T) Nontrivial()            { t.nontrivial = true }
-func (t *T) Distinct(key string)    { t.distinct = key }
-func (t *T) Sample(v any)           { t.sample = v }
-func (t *T) Events(n int)           { t.events += n }
+func (t *T) Nontrivial()         { t.nontrivial = true }
+func (t *T) Distinct(key string) { t.distinct = key }
+func (t *T) Sample(v any)        { t.sample = v }
+func (t *T) Events(n int)        { t.events += n }
 func (t *T) Inconclusive(format string, a ...any) {
 	t.inconclusive = append(t.inconclusive, fmt.Sprintf(format, a...))
 }
@@ -71,8 +71,8 @@ type G struct {
 	emit func(any)
 }
 
-func (g *G) Emit(desc any)   { g.emit(desc) }
-func (g *G) Thorough() bool  { return g.Tier == "thorough" }
+func (g *G) Emit(desc any)  { g.emit(desc) }
+func (g *G) Thorough() bool { return g.Tier == "thorough" }
 func (g *G) Pick(q, th int) int {
 	if g.Thorough() {
 		return th
@@ -400,16 +400,16 @@ func Main(c *Check, args []string) {
 		samples = append(samples, s)
 	}
 	cov := map[string]any{
-		"evaluations":         len(descs),
-		"distinct_nontrivial": len(distinct),
-		"rule":                c.Rule,
-		"samples":             samples,
-		"events_observed":     events,
-		"counters":            cover,
+		"evaluations":                   len(descs),
+		"distinct_nontrivial":           len(distinct),
+		"rule":                          c.Rule,
+		"samples":                       samples,
+		"events_observed":               events,
+		"counters":                      cover,
 		"known_findings_reproduced":     knownHit,
 		"known_findings_not_reproduced": knownMissed,
-		"inconclusive":        inconclusive,
-		"workers":             workers,
+		"inconclusive":                  inconclusive,
+		"workers":                       workers,
 	}
 	for k, v := range c.Extra {
 		cov[k] = v
